@@ -320,7 +320,8 @@ func handleWiring(c *core.Ctx, r *core.Report) {
 		for _, ret := range an.Returns(fn) {
 			al, ok := an.Strip(ret.Results[0]).(*ssa.Alloc)
 			if !ok {
-				r.Undecided(core.FuncName(fn)+"#literal", an.Pos(c, ret), "constructor does not return a literal")
+				// not a constructor: hands out a handle built elsewhere (an accessor)
+				r.Exists(core.FuncName(fn)+"#accessor", an.Pos(c, ret), "returns an existing handle (%s), not a new one", an.D().Of(ret.Results[0]))
 				continue
 			}
 			// roles by type: the *testing.T field and the func() field of the handle
